@@ -10,7 +10,7 @@ META = {
     'functions': ['utilities.TrackedArray (dirty bits)', 'boundary.BoundaryFace setters/utility methods/periodic', 'boundary.BoundaryConditionsBase.modified',
                   'cell.CellVariable.__init__/value setter/apply_BCs/update_value/copy/arithmetic', 'pdesolver.solvePDE', 'pdesolver.solveExplicitPDE',
                   'boundary.boundaryConditionsTerm*', 'boundary.cellValuesWithBoundaries*'],
-    'bounds': 'bounded-exhaustive histories over an alphabet of 21 edit/solve operations (all values written are fresh symbols, so one history covers '
+    'bounds': 'bounded-exhaustive histories over an alphabet of 22 edit/solve operations (all values written are fresh symbols, so one history covers '
               'all values): every history of length <= 2 (quick) / <= 3 (thorough) on Grid1D N=2, plus every history of length <= 2 (thorough) / a '
               'covering set (quick) on Grid2D (2,2), PolarGrid2D (2,2), CylindricalGrid1D N=2, Grid3D (2,2,2); both construction styles (BCs passed '
               'in or defaulted); followed by an implicit or explicit solve compared entry by entry (captured system, stored values, ghost layer) '
@@ -101,6 +101,11 @@ def _ops(ctx, g, m, dims):
     def do_explicit(st, k):
         st.phi = pf.solveExplicitPDE(st.phi, ctx.real('h%d_dt' % k, 'pos'), A(k, 'R', (n,)))
     O['solveExplicitPDE'] = do_explicit
+
+    def do_explicit_keep(st, k):
+        # explicit step whose result is kept elsewhere; the history continues on the INPUT variable
+        pf.solveExplicitPDE(st.phi, ctx.real('h%d_dt' % k, 'pos'), A(k, 'R', (n,)))
+    O['solveExplicitPDE_keep_input'] = do_explicit_keep
 
     def share_solve(st, k):
         # a second variable on the SAME boundary-condition object is created and solved
@@ -194,7 +199,8 @@ def histories(ctx, g, dims, seqs, final='implicit', style='passed'):
 
 def alphabet(g, dims):
     names = ['set_a', 'set_b_slice', 'set_c', 'fixedValue', 'fixedGradient', 'newtonCooling', 'defaultNoFlux', 'value_assign', 'value_slice',
-             'update_value', 'copy', 'add_var', 'rmul_scalar', 'neg', 'apply_BCs', 'solvePDE', 'solveExplicitPDE', 'shared_bc_other_solves',
+             'update_value', 'copy', 'add_var', 'rmul_scalar', 'neg', 'apply_BCs', 'solvePDE', 'solveExplicitPDE', 'solveExplicitPDE_keep_input',
+             'shared_bc_other_solves',
              'shared_bc_other_applies']
     if any(scen.periodic_ok(g, ax) for ax in range(len(dims))):
         names += ['periodic_on', 'periodic_off']
@@ -225,7 +231,8 @@ def scenarios(tier):
     cover = [['set_a', 'solvePDE'], ['solvePDE', 'set_c'], ['periodic_on', 'solvePDE'], ['solvePDE', 'periodic_on'], ['periodic_on', 'periodic_off'],
              ['value_assign', 'fixedValue'], ['solveExplicitPDE', 'set_a'], ['copy', 'set_b_slice'], ['update_value', 'apply_BCs'],
              ['set_a', 'shared_bc_other_solves'], ['add_var', 'newtonCooling'], ['apply_BCs', 'value_slice'], ['solvePDE', 'update_value'],
-             ['fixedGradient', 'solveExplicitPDE'], ['neg', 'solvePDE'], ['solveExplicitPDE', 'solveExplicitPDE']]
+             ['fixedGradient', 'solveExplicitPDE'], ['neg', 'solvePDE'], ['solveExplicitPDE', 'solveExplicitPDE'],
+             ['set_a', 'solveExplicitPDE_keep_input'], ['periodic_on', 'solveExplicitPDE_keep_input'], ['solveExplicitPDE_keep_input', 'set_c']]
     for g, dims in (('CylindricalGrid1D', [2]), ('Grid2D', [2, 2]), ('PolarGrid2D', [2, 2]), ('Grid3D', [2, 2, 2])):
         al = alphabet(g, dims)
         s1 = [[]] + [[a] for a in al]
